@@ -131,7 +131,16 @@ pub fn math_round(
     args: &[JsValue],
 ) -> Result<Guarded, JsError> {
     let n = args.first().map(|v| v.to_number()).unwrap_or(f64::NAN);
-    Ok(Guarded::unguarded(JsValue::Number(prelude_math::round(n))))
+    // Math.round rounds ties towards +Infinity (round(-2.5) is -2, round(2.5) is 3) and
+    // keeps the sign of zero; f64::round rounds ties away from zero.
+    let rounded = if !n.is_finite() || n == 0.0 {
+        n
+    } else {
+        let floor = prelude_math::floor(n);
+        let r = if n - floor >= 0.5 { floor + 1.0 } else { floor };
+        if r == 0.0 && n < 0.0 { -0.0 } else { r }
+    };
+    Ok(Guarded::unguarded(JsValue::Number(rounded)))
 }
 
 pub fn math_trunc(
